@@ -151,7 +151,7 @@ func writeIndex(file, writer string, rows []map[string]string) (res *builtIndex)
 	res = &builtIndex{file: file, outcome: "OK"}
 	msg, ok := guard(func() {
 		switch writer {
-		case "mem", "memdb":
+		case "mem", "memdb", "mem2":
 			w := updog.NewIndexWriter(file)
 			for _, r := range rows {
 				id, err := w.AddRow(r)
@@ -161,7 +161,19 @@ func writeIndex(file, writer string, rows []map[string]string) (res *builtIndex)
 				}
 				res.ids = append(res.ids, id)
 			}
-			if writer == "mem" {
+			if writer == "mem2" {
+				// the same writer flushed twice: first into a throw-away database, then to the file
+				db, err := bbolt.Open(file+".first", 0644, nil)
+				if err != nil {
+					fatal("bbolt open: %v", err)
+				}
+				if err := w.WriteToBoltDatabase(db); err != nil {
+					res.outcome = "ERR"
+				}
+				db.Close()
+				os.Remove(file + ".first")
+			}
+			if writer == "mem" || writer == "mem2" {
 				if err := w.Flush(); err != nil {
 					res.outcome = "ERR"
 				}
